@@ -86,7 +86,6 @@ def x12n_document(param, src_file, fd_997, fd_html,
     if fd_html:
         html = pyx12.error_html.error_html(errh, fd_html, src.get_term())
         html.header()
-        err_iter = pyx12.error_handler.err_iter(errh)
     if fd_xmldoc:
         xmldoc = pyx12.x12xml_simple.x12xml_simple(fd_xmldoc, param.get('simple_dtd'))
 
@@ -211,14 +210,8 @@ def x12n_document(param, src_file, fd_997, fd_html,
         if fd_html:
             if node is not None and node.is_first_seg_in_loop():
                 html.loop(node.get_parent())
-            err_node_list = []
-            while True:
-                try:
-                    next(err_iter)
-                    err_node = err_iter.get_cur_node()
-                    err_node_list.append(err_node)
-                except pyx12.errors.IterOutOfBounds:
-                    break
+            # every node that received an error while this segment was processed
+            err_node_list = errh.pop_pending_nodes()
             html.gen_seg(seg, src, err_node_list)
 
         if fd_xmldoc:
